@@ -163,6 +163,7 @@ func (v *verdict) evalEmbedded(f *fieldD, s *source, inherited, tree map[string]
 				v.unk("member %s of optional embedded struct %s missing", own, f.GoName)
 				continue
 			}
+			r.Class = "in-optional-embedded" // one key class for everything below an optional embedded struct
 			v.must = append(v.must, r)
 		}
 		v.unknown = append(v.unknown, sub.unknown...)
@@ -605,7 +606,7 @@ type comparer struct {
 	ss       sources
 	out      []mismatch
 	compared int
-	optEmb   bool // currently comparing a direct member of an optional embedded struct
+	optEmb   bool // currently comparing something below an optional embedded struct
 }
 
 func (c *comparer) bad(class string, k reflect.Kind, path, format string, a ...any) {
@@ -675,13 +676,16 @@ func (c *comparer) fields(fields []*fieldD, sv reflect.Value, cands []*source, t
 					anyPresent = true
 				}
 			}
+			prev := c.optEmb
+			c.optEmb = true // everything below an optional embedded struct gets its own key class
 			if !ok {
 				if anyPresent {
 					c.bad("supplied", f.Kind, p, "members of the optional embedded struct were supplied but it was left nil")
 				}
-				continue
+			} else {
+				c.fields(f.Sub.Fields, d, rd[:1], t, path, true)
 			}
-			c.fields(f.Sub.Fields, d, rd[:1], t, path, true)
+			c.optEmb = prev
 			continue
 		}
 		if len(rd) > 1 {
@@ -691,9 +695,7 @@ func (c *comparer) fields(fields []*fieldD, sv reflect.Value, cands []*source, t
 		if t == nil {
 			t = rd[0].tree
 		}
-		c.optEmb = lenientAbsent
 		c.field(f, fv, rd[0], t, p, lenientAbsent)
-		c.optEmb = false
 	}
 }
 
